@@ -89,7 +89,7 @@ package store
 //@   requires st != nil && st.db != nil && acyclic(st.db)
 //@   modifies state(st.nc), state(st.db.db), points
 //@   decreases rank(st.db, upNodeID)
-//@   assert [C06] self-reach: reachL(st.db, upNodeID, upNodeID) at "client.SendPoints(st.nc, sub, points, false)"
+//@   assert [C06] self-reach: reachL(st.db, upNodeID, upNodeID) at "client.SendPoints"
 //@   ensures [C06] log-kept: pubKept(st.nc) && dbKept(st.db.db)
 //@   ensures [C06] every-live-ancestor: !busFailed(st.nc) && !dbFailed(st.db.db) ==> (forall a string :: reachL(st.db, upNodeID, a) ==> toldL(st, old(pubN(st.nc)), pubN(st.nc), a, nodeID, points))
 //@   ensures [C06] only-live-ancestors: forall i int :: old(pubN(st.nc)) <= i && i < pubN(st.nc) ==> sameSlice(pubPts(st.nc, i), points) && (exists a string :: reachL(st.db, upNodeID, a) && pubSubj(st.nc, i) == sprintf("up.%v.%v", a, nodeID))
@@ -117,7 +117,7 @@ package store
 //@   requires st != nil && st.db != nil && acyclic(st.db)
 //@   modifies state(st.nc), state(st.db.db), points
 //@   decreases rank(st.db, upNodeID)
-//@   assert [C06] self-reach: reachA(st.db, upNodeID, upNodeID) at "client.SendPoints(st.nc, sub, points, false)"
+//@   assert [C06] self-reach: reachA(st.db, upNodeID, upNodeID) at "client.SendPoints"
 //@   ensures [C06] log-kept: pubKept(st.nc) && dbKept(st.db.db)
 //@   ensures [C06] every-ancestor: !busFailed(st.nc) && !dbFailed(st.db.db) ==> (forall a string :: reachA(st.db, upNodeID, a) ==> toldA(st, old(pubN(st.nc)), pubN(st.nc), a, nodeID, parentID, points))
 //@   ensures [C06] only-ancestors: forall i int :: old(pubN(st.nc)) <= i && i < pubN(st.nc) ==> sameSlice(pubPts(st.nc, i), points) && (exists a string :: reachA(st.db, upNodeID, a) && pubSubj(st.nc, i) == sprintf("up.%v.%v.%v", a, nodeID, parentID))
